@@ -11,6 +11,7 @@ from __future__ import annotations
 import contextlib
 import io
 import itertools
+import warnings
 from ..engine import shard
 from ..gen import trees as T, selectors as S
 from ..ref import css as R
@@ -327,7 +328,54 @@ def run_args(sv, tier, i, n, res):
                                   'debug': bool(flags), 'positional': positional},
                                  f'module {name}({text!r}, ns={ns!r}, flags={fl}, custom={custom!r}, positional={positional}, '
                                  f'limit={limit}) -> {out[0]!r}; compile(...).{name} -> {out[1]!r}')
+    if i == 0:
+        run_args_ns(sv, res)
     return res
+
+
+def run_args_ns(sv, res):
+    """The same equation on a document where the namespaces= map decides the answer (a prefix, a default namespace, both) and a custom= map that
+    uses the prefix: an argument that is dropped or misrouted on the way to compile() changes the result."""
+    import bs4
+    with warnings.catch_warnings():
+        warnings.simplefilter('ignore')
+        soup = bs4.BeautifulSoup(XML_DOC, 'xml')
+    els = T.elements(soup)
+    maps = ({'x': 'urn:a'}, {'': 'urn:a'}, {'': 'urn:b', 'x': 'urn:a'})
+    customs = ('absent', {':--c': 'x|e', ':--d': 'e'})
+    texts = ['x|e', 'e', '*|e > x|e', ':not(x|e)', 'x|e:not(:scope)', 'x|*', '[id]']
+    sink = io.StringIO()
+    for name, ns, fl, custom, positional in itertools.product(ENTRY, maps, FLAG_OPTS, customs, (False, True)):
+        flags = sv.DEBUG if fl == 'DEBUG' else 0
+        pats = texts + ([':--c', ':--d', 'e:--c'] if custom != 'absent' and 'x' in ns else [])
+        for target in [soup, els[0], els[1], els[2], els[5], els[6]]:
+            for text in pats:
+                sv.purge()
+                out = []
+                for fn in (lambda: call_module(sv, name, text, target, ns, flags, custom, positional, None),
+                           lambda: call_compiled(sv, name, text, target, ns, flags, custom, None)):
+                    try:
+                        with shard.deadline(20), contextlib.redirect_stdout(sink):
+                            out.append(('ok', fn()))
+                    except shard.CaseTimeout:
+                        out.append(('timeout', None))
+                    except Exception as e:
+                        out.append(('raise', type(e).__name__ + ': ' + str(e)[:80]))
+                sink.seek(0)
+                sink.truncate()
+                res.evaluations += 2
+                (s1, v1), (s2, v2) = out
+                ok = s1 == s2 and (same(v1, v2) if s1 == 'ok' else (s1 == 'timeout' or v1.split(':')[0] == v2.split(':')[0]))
+                if s1 == 'ok' and (v1 not in (None, False, [])):
+                    res.nontrivial += 1
+                res.outcome('args-agree' if ok else 'args-differ')
+                if not ok:
+                    res.fail({'layer': 'args-ns', 'entry': name, 'ns': ns, 'flags': fl, 'custom': custom, 'positional': positional, 'text': text,
+                              'target': -1 if target is soup else els.index(target)},
+                             {'entry': 'module.' + name, 'what': 'args-on-namespaced-document', 'custom': custom != 'absent', 'default_ns': '' in ns,
+                              'debug': bool(flags), 'positional': positional},
+                             f'module {name}({text!r}, ns={ns!r}, flags={fl}, custom={custom!r}, positional={positional}) -> {out[0]!r}; '
+                             f'compile(...).{name} -> {out[1]!r}')
 
 
 XML_DOC = ('<r xmlns:p="urn:a" xmlns:q="urn:b"><p:e id="1"><p:e id="2"/><q:e id="3"/></p:e><p:e id="4" checked=""/><q:e id="5"><p:f id="6"/></q:e>'
@@ -515,6 +563,13 @@ def replay(case):
             if f_['case']['text'] == case['text'] and f_['case']['entry'] == case['entry']:
                 return f_['sig'], f_['detail']
         return (r.failures[0]['sig'], r.failures[0]['detail']) if r.failures else None
+    if case['layer'] == 'args-ns':
+        r = shard.Result()
+        run_args_ns(sv, r)
+        for f_ in r.failures:
+            if all(f_['case'].get(k) == case.get(k) for k in ('entry', 'ns', 'flags', 'custom', 'positional', 'text', 'target')):
+                return f_['sig'], f_['detail']
+        return None
     f = _sel.tup(case['forest'])
     if case['layer'] == 'args':
         soup = T.build_api(f)
